@@ -380,44 +380,54 @@ def orNull : Ty → Ty
   | .union ts => .union (ts ++ [.prim "null"])
   | t => .union [t, .prim "null"]
 
+/-- how the printed type refers to the schema declaration file: `out n` = `NS.__OperationOutput.<n>`,
+    `selSet` = `NS.__SelectionSet` (a parameter so that lemmas can speak about the types with their references
+    resolved — `Refs.ofNs` is what the printer writes) -/
+structure Refs where
+  out : Name → Ty
+  selSet : Ty
+
+/-- the references as printed, `ns` = `schema_root_namespace` -/
+def Refs.ofNs (ns : String) : Refs :=
+  { out := fun n => .qref [ns, "__OperationOutput", n], selSet := .qref [ns, "__SelectionSet"] }
+
 mutual
 /-- `map_to_tstype_impl(..).0`: the type with the outermost nullability dropped -/
-def leafCore (ns : String) : GType → Ty
-  | .named n _ => .qref [ns, "__OperationOutput", n]
-  | .list t _ => .arr (leafTs ns t)
-  | .nonNull t => leafCore ns t
-/-- `map_to_tstype` with the mapper of `field_to_type` -/
-def leafTs (ns : String) : GType → Ty
-  | .named n _ => orNull (.qref [ns, "__OperationOutput", n])
-  | .list t _ => orNull (.arr (leafTs ns t))
-  | .nonNull t => leafCore ns t
+def leafCore (q : Name → Ty) : GType → Ty
+  | .named n _ => q n
+  | .list t _ => .arr (leafTs q t)
+  | .nonNull t => leafCore q t
+/-- `map_to_tstype` with the mapper `q` (`field_to_type` passes `NS.__OperationOutput.<n>`) -/
+def leafTs (q : Name → Ty) : GType → Ty
+  | .named n _ => orNull (q n)
+  | .list t _ => orNull (.arr (leafTs q t))
+  | .nonNull t => leafCore q t
 end
 
 mutual
 /-- `generate_selection_tree_type_impl` -/
-def treeTs (ns : String) : SelTree → Bool → Ty
-  | .nonNull t, _ => treeTs ns t true
-  | .list t, nn => let l := Ty.arr (treeTs ns t false); if nn then l else orNull l
-  | .object bs, nn => let b := tsUnion (branchesTs ns bs); if nn then b else orNull b
-def branchesTs (ns : String) : List Branch → List Ty
+def treeTs (r : Refs) : SelTree → Bool → Ty
+  | .nonNull t, _ => treeTs r t true
+  | .list t, nn => let l := Ty.arr (treeTs r t false); if nn then l else orNull l
+  | .object bs, nn => let b := tsUnion (branchesTs r bs); if nn then b else orNull b
+def branchesTs (r : Refs) : List Branch → List Ty
   | [] => []
-  | b :: bs => branchTs ns b :: branchesTs ns bs
-def branchTs (ns : String) : Branch → Ty
+  | b :: bs => branchTs r b :: branchesTs r bs
+def branchTs (r : Refs) : Branch → Ty
   | .mk tn _ un al =>
-    .app (.qref [ns, "__SelectionSet"])
-      [.qref [ns, "__OperationOutput", tn], .obj (fieldsTs ns tn un), .obj (fieldsTs ns tn al)]
-def fieldsTs (ns : String) (parent : Name) : List SField → List Ts.Field
+    .app r.selSet [r.out tn, .obj (fieldsTs r tn un), .obj (fieldsTs r tn al)]
+def fieldsTs (r : Refs) (parent : Name) : List SField → List Ts.Field
   | [] => []
-  | f :: fs => fieldTs ns parent f :: fieldsTs ns parent fs
+  | f :: fs => fieldTs r parent f :: fieldsTs r parent fs
 /-- `field_to_type`: (key, readonly, optional, type) -/
-def fieldTs (ns : String) (parent : Name) : SField → Ts.Field
+def fieldTs (r : Refs) (parent : Name) : SField → Ts.Field
   | .empty n => (n, false, true, .prim "never")
-  | .leaf n ty isTn => (n, false, false, if isTn then .strLit parent else leafTs ns ty)
-  | .object n sel => (n, false, false, treeTs ns sel false)
+  | .leaf n ty isTn => (n, false, false, if isTn then .strLit parent else leafTs r.out ty)
+  | .object n sel => (n, false, false, treeTs r sel false)
 end
 
 /-- `generate_selection_tree_type` -/
-def toTs (ns : String) (t : SelTree) : Ty := treeTs ns t false
+def toTs (ns : String) (t : SelTree) : Ty := treeTs (Refs.ofNs ns) t false
 
 /-! ### the declarations of the operation file that carry result types (visitor.rs, operation_base_printer) -/
 
